@@ -40,6 +40,7 @@ func c09Trigger(_ *workers.TriggerPool, ctx context.Context, n int) {
 //verif:replace (*$M/internal/workers.PoolManager).NewTriggerPool c09NewTriggerPool
 //verif:replace (*$M/internal/workers.TriggerPool).Start c09Start
 //verif:replace (*$M/internal/workers.TriggerPool).Trigger c09Trigger
+//verif:deadlock 1
 func VerifC09_Cadence() {
 	d := zz.Int64("interval")
 	zz.Assume(d > 0)
